@@ -348,6 +348,25 @@ func c11Run(r *core.Run) {
 	}
 	c11Enumerate(r.Thorough(), do(false))
 	c11EnumerateExtra(do(true))
+	// raw string literals in which a backslash that is not an escape stands before a multi-byte character
+	for i, lit := range []string{`\é`, `a\éb`, `\😀`, `\€x`, `x\é\€`, `\�`, `\é\\`, `é\a`} {
+		if !r.Mine(i) {
+			continue
+		}
+		for _, e := range []string{"'" + lit + "'", "length('" + lit + "')", "reverse('" + lit + "')", "'" + lit + "' == s", "'" + lit + "'[1:]", "['" + lit + "'][0]", "split('" + lit + "', '')", "pad_left('" + lit + "', `6`, '-')"} {
+			want := strings.ReplaceAll(lit, `\\\\`, `\\`)
+			d := mkDoc(`{"s":` + jsonStr(want) + `}`)
+			o := core.Search(e, d.Raw)
+			r.Eval(o)
+			r.Add("states", 1)
+			ref := ref.Eval(e, d.Norm)
+			if o.Kind == "ok" && !core.ValidUTF8(o.Raw) {
+				r.Violate(&core.Violation{Sig: "C11/invalid-utf8/raw-literal", Desc: fmt.Sprintf("Search(%q, %s)", e, d.Text), Point: map[string]any{"expr": e, "doc": d.Text, "kind": "reference/raw-literal"}, Expected: "valid UTF-8", Actual: o.Short()})
+			} else if k := refDiff(o, ref); k != "" {
+				r.Violate(&core.Violation{Sig: "C11/reference/" + k + "/raw-literal", Desc: fmt.Sprintf("Search(%q, %s)", e, d.Text), Point: map[string]any{"expr": e, "doc": d.Text, "kind": "reference/raw-literal"}, Expected: ref.String(), Actual: o.Short()})
+			}
+		}
+	}
 	r.Bound("max_string_length", map[bool]int{false: 4, true: 5}[r.Thorough()])
 	r.Bound("renamings", []string{"a->é b->€ c->😀", "a->a b->é c->😀"})
 	r.Bound("extra_strings", c11Extra)
@@ -392,4 +411,14 @@ func c11Judge(r *core.Run, phase string, pt map[string]any) *core.Violation {
 		}
 	}
 	return nil
+}
+
+func refDiff(o core.Obs, want ref.Res) string {
+	if want.U != "" {
+		if o.Kind == "panic" {
+			return "panic"
+		}
+		return ""
+	}
+	return ref.Diff(o, want)
 }
